@@ -541,7 +541,9 @@ def r03_9(chk):
     if seam:
         chk.ok("R03.9", k, lm.loc(add), f"last/first position compared; {len(uses)} map additions in the alignment modules")
     elif not uses:
-        chk.advisory("R03.9", k, lm.loc(add), "IndelMap.__add__ does not merge abutting gap runs; no alignment code adds two maps today (latent)")
+        # nothing in the alignment modules depends on it: the obligation is vacuous, the flaw is reported as an advisory
+        chk.ok("R03.9", k, lm.loc(add), "no alignment code adds two maps", nontrivial=False)
+        chk.advisory("R03.9", key(lm, "IndelMap.__add__", "seam run not merged (latent)"), lm.loc(add), "IndelMap.__add__ does not merge abutting gap runs; no alignment code adds two maps today (latent)")
     for m, q, b in uses:
         chk.decide(seam, "R03.9", key(m, q, f"`{norm(b)}` relies on a canonical sum"), m.loc(b), "IndelMap.__add__ merges the seam", f"`{norm(b)}` concatenates two gap maps with IndelMap.__add__, which keeps a gap that ends the left part and one that starts the right part as two records at one position: '----' + '--TAC' is rendered too long, and later column filtering raises 'not all sequences have same length'")
     chk.floor("R03.9", 1, "IndelMap.__add__")
